@@ -178,6 +178,7 @@ def main():
     hit = None
     for i in range(n):
         args = gen_inputs.generate(rnd, job['ptypes'], job['search'].get('hints', {}), i)
+        args.update(job.get('instance') or {})
         if not pre_ok(job, env, args):
             continue
         tried += 1
